@@ -326,6 +326,147 @@ fn session(c: &Corpus, which: Impl, compressed: bool, style: u64, total_bytes: u
     Ok((sent, datagrams))
 }
 
+/// The same traffic through a connection made by `Builder::udp(..).connect_blocking()/connect_async()`, which is
+/// how users obtain a UDP connection. Stop-and-wait: one datagram at a time, so the connection's kernel queue
+/// holds at most that datagram. A datagram whose packets are not delivered is judged lost only if a sentinel
+/// sent after it does come through (loopback UDP keeps order), otherwise the session is inconclusive.
+fn builder_session(c: &Corpus, which: Impl, compressed: bool, style: u64, total_bytes: usize, r: &mut Rng, p: &mut Part) -> Result<(usize, usize), String> {
+    use insim::{builder::Builder, net::Mode};
+    let peer = UdpSocket::bind("127.0.0.1:0").map_err(|e| e.to_string())?;
+    peer.set_read_timeout(Some(Duration::from_secs(10))).map_err(|e| e.to_string())?;
+    let remote = peer.local_addr().map_err(|e| e.to_string())?;
+    let b = Builder::new().udp(remote, None).mode(if compressed { Mode::Compressed } else { Mode::Uncompressed }).verify_version(false).connect_timeout(Duration::from_secs(10));
+    let label = format!("builder-{}-{}-style{style}", which.name(), mode_name(compressed));
+    let mut conn = match which {
+        Impl::Blocking => Conn::Blocking(b.connect_blocking().map_err(|e| format!("{label}: connect_blocking: {e}"))?),
+        Impl::Tokio => {
+            let rt = tokio::runtime::Builder::new_current_thread().enable_all().build().map_err(|e| e.to_string())?;
+            let f = rt.block_on(b.connect_async()).map_err(|e| format!("{label}: connect_async: {e}"))?;
+            Conn::Tokio(f, rt)
+        },
+    };
+    // the handshake datagram tells the peer where the connection lives
+    let mut buf = [0u8; 2048];
+    let (_, from) = peer.recv_from(&mut buf).map_err(|e| format!("{label}: no ISI datagram: {e}"))?;
+    peer.connect(from).map_err(|e| e.to_string())?;
+    let sentinel = vec![if compressed { 1u8 } else { 4 }, 3, 201, 3];
+    let sentinel_result = match real_decode(&sentinel, compressed) {
+        Dec::Packet(q, _) => ReadResult::Packet(format!("{:?}", q)),
+        _ => return Err("sentinel does not decode".into()),
+    };
+    // A blocking connection made by the builder has no read timeout, and a connection that dropped part of a
+    // datagram may wait for bytes that never come. A feeder thread therefore sends a sentinel whenever a read has
+    // been outstanding for 2 s: every read eventually returns, and a sentinel that overtakes owed packets shows
+    // that they were consumed from the socket but not delivered.
+    use std::sync::{
+        atomic::{AtomicBool, AtomicUsize, Ordering},
+        Arc, Mutex,
+    };
+    let fed = Arc::new(AtomicUsize::new(0));
+    let stop = Arc::new(AtomicBool::new(false));
+    let waiting_since: Arc<Mutex<Option<Instant>>> = Arc::new(Mutex::new(None));
+    let feeder = {
+        let (fed, stop, waiting_since, sentinel) = (fed.clone(), stop.clone(), waiting_since.clone(), sentinel.clone());
+        let sock = peer.try_clone().map_err(|e| e.to_string())?;
+        std::thread::spawn(move || {
+            while !stop.load(Ordering::SeqCst) {
+                std::thread::sleep(Duration::from_millis(100));
+                let overdue = waiting_since.lock().unwrap().map(|t| t.elapsed() > Duration::from_secs(2)).unwrap_or(false);
+                if overdue && fed.load(Ordering::SeqCst) < 50 {
+                    if sock.send(&sentinel).is_ok() {
+                        let _ = fed.fetch_add(1, Ordering::SeqCst);
+                    }
+                    *waiting_since.lock().unwrap() = Some(Instant::now());
+                }
+            }
+        })
+    };
+    let mut read_one = |conn: &mut Conn| -> Option<ReadResult> {
+        *waiting_since.lock().unwrap() = Some(Instant::now());
+        let r = match conn {
+            Conn::Blocking(f) => Some(classify(f.read())),
+            Conn::Tokio(f, rt) => rt.block_on(async {
+                match tokio::time::timeout(Duration::from_secs(30), f.read()).await {
+                    Ok(r) => Some(classify(r)),
+                    Err(_) => None,
+                }
+            }),
+        };
+        *waiting_since.lock().unwrap() = None;
+        r
+    };
+    let mut sent = 0usize;
+    let mut datagrams = 0usize;
+    let mut sentinels_seen = 0usize;
+    let mut outcome: Result<(), String> = Ok(());
+    'session: while sent < total_bytes {
+        let d = make_datagram(c, r, compressed, style);
+        let (frames, rest) = ref_frames(&d, compressed);
+        if !rest.is_empty() {
+            outcome = Err("generator produced a datagram that is not whole frames".into());
+            break;
+        }
+        let owed: Vec<ReadResult> = frames
+            .iter()
+            .map(|f| match real_decode(f, compressed) {
+                Dec::Packet(q, _) => ReadResult::Packet(format!("{:?}", q)),
+                _ => ReadResult::DecodeErr,
+            })
+            .collect();
+        let replies = frames.iter().filter(|f| f.len() == 4 && f[1] == 3 && f[2] == 0 && f[3] == 0).count();
+        p.distinct(&(compressed, &d));
+        // sentinels fed up to here were sent before this datagram and arrive before it
+        let stale = fed.load(Ordering::SeqCst);
+        if let Err(e) = peer.send(&d) {
+            outcome = Err(format!("peer send failed: {e}"));
+            break;
+        }
+        sent += d.len();
+        datagrams += 1;
+        let replay = json!({"impl": which.name(), "mode": mode_name(compressed), "via": "builder", "cumulative_bytes": sent, "datagram_size": d.len(), "datagram": hex(&d[..d.len().min(160)])});
+        let mut got = 0usize;
+        while got < owed.len() {
+            p.evaluations += 1;
+            match read_one(&mut conn) {
+                Some(x) if x == sentinel_result && sentinels_seen < stale => sentinels_seen += 1,
+                Some(x) if x == owed[got] => got += 1,
+                Some(x) => {
+                    let what = if x == sentinel_result { "datagram-swallowed" } else { "packet-differs" };
+                    p.violation(
+                        format!("C08/{}/{what}", which.name()),
+                        format!("{label}: after {sent} bytes of traffic, packet #{got} of a {}-byte datagram is {} but the peer sent {}", d.len(), crate::sess::short(&x), crate::sess::short(&owed[got])),
+                        replay,
+                    );
+                    break 'session;
+                },
+                None => {
+                    outcome = Err(format!("{label}: a read did not return within 30 s although sentinels were fed (after {sent} bytes)"));
+                    break 'session;
+                },
+            }
+        }
+        let reply = if compressed { [1u8, 3, 0, 0] } else { [4u8, 3, 0, 0] };
+        for _ in 0..replies {
+            match peer.recv(&mut buf) {
+                Ok(n) if buf[..n] == reply => {},
+                Ok(n) => {
+                    p.violation(format!("C08/{}/keepalive-reply-datagram", which.name()), format!("{label}: keep-alive reply datagram is {}", hex(&buf[..n])), json!({"impl": which.name(), "via": "builder"}));
+                    break 'session;
+                },
+                Err(e) => {
+                    p.violation(format!("C08/{}/keepalive-reply-missing", which.name()), format!("{label}: keep-alive reply did not arrive: {e}"), json!({"impl": which.name(), "via": "builder"}));
+                    break 'session;
+                },
+            }
+        }
+    }
+    stop.store(true, Ordering::SeqCst);
+    let _ = feeder.join();
+    outcome?;
+    p.distinct(&(label, sent));
+    Ok((sent, datagrams))
+}
+
 pub fn run(ctx: &mut Ctx) -> (&'static str, String, bool) {
     let c = match Corpus::load() {
         Ok(c) => c,
@@ -358,6 +499,23 @@ pub fn run(ctx: &mut Ctx) -> (&'static str, String, bool) {
             }
         }
     }
+    // connections obtained from the builder
+    let mut builder_sessions = 0;
+    for which in [Impl::Blocking, Impl::Tokio] {
+        for compressed in MODES {
+            for style in [1u64, 3] {
+                match builder_session(&c, which, compressed, style, 6120 * factor.min(12), &mut r, &mut p) {
+                    Ok((s, d)) => {
+                        total_sent += s;
+                        total_dgrams += d;
+                        builder_sessions += 1;
+                    },
+                    Err(e) => ctx.inconclusive(format!("{} {} style {style} via builder: {e}", which.name(), mode_name(compressed))),
+                }
+            }
+        }
+    }
+    ctx.extra("builder_sessions", json!(builder_sessions));
     ctx.merge(p);
     ctx.extra("sessions", json!(sessions));
     ctx.extra("bytes_received_through_connections", json!(total_sent));
@@ -367,7 +525,7 @@ pub fn run(ctx: &mut Ctx) -> (&'static str, String, bool) {
     ctx.assume("loss is decided by observing an empty kernel queue (three consecutive observations) while packets are owed, never by a timeout alone");
     (
         "exploration",
-        "real loopback UDP socket pairs; per {blocking,tokio} x {compressed,uncompressed} x 4 datagram-size styles (small, maximal incl. a single 1020-byte frame, uniform, bimodal): bursts of 1-4 datagrams of 1..n frames until several times the 6120-byte buffer has passed through, every delivered packet compared with the isolated decoding of the sent frames; then 40 writes observed as exactly one datagram each; distinct = distinct (mode, datagram) sent by the peer".into(),
+        "real loopback UDP socket pairs; per {blocking,tokio} x {compressed,uncompressed} x 4 datagram-size styles (small, maximal incl. a single 1020-byte frame, uniform, bimodal): bursts of 1-4 datagrams of 1..n frames until several times the 6120-byte buffer has passed through, every delivered packet compared with the isolated decoding of the sent frames; then 40 writes observed as exactly one datagram each; the same traffic (maximal and bimodal sizes) through connections made by Builder::udp(..).connect_blocking()/connect_async(), one datagram at a time with an in-order sentinel deciding loss; distinct = distinct (mode, datagram) sent by the peer".into(),
         false,
     )
 }
